@@ -711,7 +711,7 @@ def selftest(tier):
 
 
 def meta(tier):
-    return {
+    m = {
         "functions": [prune, iterative_prune, ts.proof_tree_dfs, ts.all_proof_trees_dfs, random_proof_tree,
                       smallish_random_proof_tree, proof_tree_generator_bfs, proof_tree_generator_dfs,
                       iterative_proof_tree_finder, RuleDBBase.add, RuleDBBase.pruned_dict.fget, RuleDBBase.rules_up_to_equivalence,
@@ -732,3 +732,5 @@ def meta(tier):
         "assumptions": ["reference: SCC collapse (Floyd-Warshall, smallest label as representative) + greatest fixed point / bottom-up "
                         "derivation + exhaustive minimum tree size; validated natively during design on 69 613 database queries"],
     }
+    m["bounds"] = str(m.get("bounds", "")) + " || end-to-end groups of this run: " + e2e.describe_groups(groups(tier))
+    return m
